@@ -5,6 +5,17 @@
 HERE="$(cd "$(dirname "$0")" && pwd)"
 REPO=${VX_REPO:-/repo}
 export CARGO_TARGET_DIR=${VX_REPLAY_TARGET:-/verif/build/replay_target}
+if [ -z "$VX_REPLAY_TARGET" ] && [ "$(realpath "$REPO")" != "/repo" ]; then
+  # a scratch tree (seeded change, replay of a violation): its own target directory, seeded with hard links to the dependency
+  # artifacts already built for /repo, and removed by the driver at the end of the check (1-2 GB of workspace-crate artifacts per tree
+  # would otherwise pile up in the shared directory)
+  MAIN=$CARGO_TARGET_DIR
+  export CARGO_TARGET_DIR=/verif/build/replay_target_other/$(echo -n "$(realpath "$REPO")" | md5sum | cut -c1-10)
+  if [ ! -d "$CARGO_TARGET_DIR/debug" ] && [ -d "$MAIN/debug" ]; then
+    mkdir -p "$CARGO_TARGET_DIR" && cp -al "$MAIN/debug" "$CARGO_TARGET_DIR/debug" 2>/dev/null
+    rm -rf "$CARGO_TARGET_DIR/debug/incremental"
+  fi
+fi
 export CARGO_NET_OFFLINE=true
 W="$CARGO_TARGET_DIR/manifest-$(echo -n "$REPO" | md5sum | cut -c1-10)"
 mkdir -p "$W/.cargo"
